@@ -35,7 +35,9 @@ EXPLANATION = (
     "the probability vector handed to rng.choice is built in action-index order (not dict insertion order), the count "
     "is the size of the action map, the drawn index is the action returned, the Generator is seeded from the seeded "
     "global numpy source and set_random_seed seeds both global sources; all other random draws of these modules use "
-    "the seeded stdlib global. NOT decided: statistical behaviour of the draws, effects of blue actions on success or "
+    "the seeded stdlib global; R19.6 the kill-chain return handler reads history[<its timestep parameter>] (never a fixed "
+    "position), every caller passes self.current_timestep, which is written only by update_current_timestep and only "
+    "after the handler has examined the previous turn. NOT decided: statistical behaviour of the draws, effects of blue actions on success or "
     "failure of red actions, whether emitted action names are in the configured action map, validity of the "
     "credentials/knowledge TAP003 reads from its options."
 )
@@ -990,9 +992,59 @@ def r19_5(ctx: Ctx) -> None:
     ctx.floor(R, "random draws in the scripted agents", n, 6)
 
 
+def r19_6(ctx: Ctx) -> None:
+    """Stage progression rests on the response to the agent's own previous *turn*.  Between two turns (frequency > 1) the
+    history holds do-nothing items whose response is always success, so the handler must index the history with the
+    previous turn's timestep - not with a fixed position such as -1."""
+    ix = ctx.ix
+    R = "R19.6"
+    ctx.rule(R, "the kill-chain return handler reads the history item of the agent's previous turn: history[<its timestep "
+                "parameter>], and every caller passes self.current_timestep (updated only when the agent takes a turn)")
+    h = ix.method("AbstractTAP._tap_return_handler")
+    params = [a.arg for a in h.node.args.args[1:]]
+    subs = [x for x in ast.walk(h.node) if isinstance(x, ast.Subscript) and unparse(x.value) == "self.history"]
+    if not subs:
+        raise AnalysisError("R19.6: _tap_return_handler no longer reads self.history[...] (idiom changed)")
+    for i, x in enumerate(subs):
+        idx = x.slice
+        if isinstance(idx, ast.Name) and idx.id in params:
+            ok, why = True, f"indexed with its parameter `{idx.id}`"
+        elif isinstance(idx, ast.Constant) or (isinstance(idx, ast.UnaryOp) and isinstance(idx.operand, ast.Constant)):
+            ok, why = False, (f"indexed with the fixed position {unparse(idx)}: with frequency > 1 that is the do-nothing item of an "
+                              "in-between step (always success), so a failed kill-chain action goes unnoticed")
+        else:
+            raise AnalysisError(f"R19.6: cannot tell which history item `{unparse(x)}` denotes")
+        ctx.record(R, ctx.key(h, f"history read #{i + 1} is the previous turn's item"), h.loc(x), ok, why)
+    n = 0
+    for cs in call_sites(ix, ["_tap_return_handler"]):
+        n += 1
+        a = cs.call.args[0] if cs.call.args else (cs.call.keywords[0].value if cs.call.keywords else None)
+        ok = a is not None and unparse(a) == "self.current_timestep"
+        ctx.record(R, f"{cs.path}::{cs.owner}::handler is given the previous turn's timestep", cs.where, ok,
+                   f"argument {unparse(a) if a is not None else '<none>'}")
+        # and current_timestep moves only when a turn is taken: update_current_timestep is called after the handler on the same path
+        if cs.fn is not None and not isinstance(cs.fn.node, ast.Lambda):
+            g = CFG(cs.fn.node)
+            hn = [nd for nd in g.nodes if any(c is cs.call for c in node_calls(nd))]
+            upd = [nd for nd in g.nodes if any(call_name(c) == "update_current_timestep" for c in node_calls(nd))]
+            before = [u for u in upd if hn and g.path_avoiding(hn, lambda e: False, start=u) is not None]
+            ctx.record(R, f"{cs.path}::{cs.owner}::current_timestep is advanced only after the handler has looked at the previous turn",
+                       cs.where, bool(upd) and not before,
+                       f"{len(upd)} update_current_timestep call(s), none before the handler" if upd and not before else
+                       "current_timestep is overwritten before the previous turn's response is examined")
+    ctx.floor(R, "callers of _tap_return_handler", n, 2)
+    writers = [s for s in _stores(ctx, "current_timestep") if s.path.startswith(PKG)]
+    for s in writers:
+        ok = s.owner.endswith(".update_current_timestep") or s.owner.endswith(".__init__") or s.fn is None
+        ctx.record(R, f"{s.path}::{s.owner}::{s.kind} current_timestep", s.where, ok,
+                   "written by update_current_timestep only" if ok else "current_timestep written outside update_current_timestep")
+
+
+
 def check(ctx: Ctx) -> None:
     agents = r19_1(ctx)
     r19_2(ctx)
     r19_3(ctx, agents)
     r19_4(ctx, agents)
     r19_5(ctx)
+    r19_6(ctx)
